@@ -55,17 +55,51 @@ Upper == [internal |-> "INTERNAL", status |-> "STATUS", metrics |-> "METRICS", h
 \* percent-decoding of an atom (url.unescape)
 DecTab == ("%69nternal" :> <<"internal">>) @@ ("%73tatus" :> <<"status">>) @@ ("%6Detrics" :> <<"metrics">>) @@
           ("%68ealth" :> <<"health">>) @@ ("%70ub" :> <<"pub">>) @@ ("%78" :> <<"x">>) @@ ("%76" :> <<"v">>) @@
-          ("%2F" :> <<"/">>) @@ ("a%2Fb" :> <<"a", "/", "b">>)
+          ("%2F" :> <<"/">>) @@ ("a%2Fb" :> <<"a", "/", "b">>) @@
+          \* an encoded percent sign / double encoding: ONE decoding step gives text that still looks encoded
+          ("%25zz" :> <<"%zz">>) @@ ("100%25" :> <<"100%">>) @@ ("a%252Fb" :> <<"a%2Fb">>) @@ ("%2525" :> <<"%25">>) @@
+          ("%25252F" :> <<"%252F">>) @@ ("%252F" :> <<"%2F">>) @@
+          ("%2569nternal" :> <<"%69nternal">>) @@ ("%2573tatus" :> <<"%73tatus">>) @@ ("%256Detrics" :> <<"%6Detrics">>) @@
+          ("%2568ealth" :> <<"%68ealth">>) @@ ("%2570ub" :> <<"%70ub">>) @@
+          ("%2e%2e" :> <<"..">>) @@ ("%00" :> <<"NUL">>) @@ ("%20" :> <<" ">>) @@ ("%FF" :> <<"xFF">>) @@ ("%ff" :> <<"xFF">>)
+Enc2 == [internal |-> "%2569nternal", status |-> "%2573tatus", metrics |-> "%256Detrics", health |-> "%2568ealth", pub |-> "%2570ub"]
+\* atoms that are the canonical escaping of their decoding (url.URL keeps RawPath only when the text is NOT canonical;
+\* echo dispatches on RawPath when set and on the DECODED Path otherwise)
+CanonEnc == {"%25zz", "100%25", "a%252Fb", "%2525", "%25252F", "%252F", "%2569nternal", "%2573tatus", "%256Detrics",
+             "%2568ealth", "%2570ub", "%00", "%20", "%FF"}
+NonCanon(a) == a \in DOMAIN DecTab /\ a \notin CanonEnc
+BadEscape == {"%zz"}      \* url.ParseRequestURI fails: 400 from net/http
 Dec(a) == IF a \in DOMAIN DecTab THEN DecTab[a] ELSE <<a>>
 RECURSIVE DecodeSeq(_)
 DecodeSeq(s) == IF s = <<>> THEN <<>> ELSE Dec(Head(s)) \o DecodeSeq(Tail(s))
 
+\* values of the path parameter of /internal/p/:id (a parameter matches any text without "/")
+ParamVal == ("param-dotdot" :> "..") @@
+    ("param-dot" :> ".") @@
+    ("param-enc-dots" :> "%2e%2e") @@
+    ("param-nul" :> "%00") @@
+    ("param-space" :> "%20") @@
+    ("param-hiFF" :> "%FF") @@
+    ("param-hiff" :> "%ff") @@
+    ("param-plus" :> "+") @@
+    ("param-pct-bad" :> "%25zz") @@
+    ("param-pct-end" :> "100%25") @@
+    ("param-denc-slash" :> "a%252Fb") @@
+    ("param-denc-pct" :> "%2525") @@
+    ("param-triple-enc" :> "%25252F") @@
+    ("param-raw-bad-escape" :> "%zz")
+ParamValQ == ("param-pct-bad-query" :> "%25zz") @@
+    ("param-pct-end-query" :> "100%25") @@
+    ("param-denc-slash-query" :> "a%252Fb")
 Variants == {"plain", "trailing", "dslash-before", "dslash-inside", "dot-before", "dot-inside", "dotdot-inside",
              "dotdot-outside", "enc-first", "enc-last", "enc-slash", "enc-slash-param", "upper-first", "upper-last",
-             "query", "query-slash", "frag", "semicolon", "backslash"}
+             "query", "query-slash", "frag", "semicolon", "backslash",
+             "denc-first", "denc-slash", "pct-bad-suffix", "raw-bad-escape-suffix"} \cup DOMAIN ParamVal \cup DOMAIN ParamValQ
 Applicable(v, r) ==
     CASE v \in {"dslash-inside", "dot-inside", "dotdot-inside", "enc-last", "enc-slash", "upper-last", "backslash"} -> Multi(r)
       [] v = "enc-slash-param" -> r = "iparam"
+      [] v \in DOMAIN ParamVal \cup DOMAIN ParamValQ -> r = "iparam"
+      [] v = "denc-slash" -> Multi(r)
       [] OTHER -> TRUE
 
 Variant(v, p) ==
@@ -91,6 +125,12 @@ Variant(v, p) ==
          [] v = "frag"            -> p \o <<"#", "f">>
          [] v = "semicolon"       -> <<p[1], p[2], ";", "a=b">> \o rest
          [] v = "backslash"       -> <<p[1], p[2], "\\">> \o SubSeq(p, 4, n)
+         [] v = "denc-first"      -> <<p[1], Enc2[p[2]]>> \o rest
+         [] v = "denc-slash"      -> <<p[1], p[2], "%252F">> \o SubSeq(p, 4, n)
+         [] v = "pct-bad-suffix"  -> p \o <<"%25zz">>
+         [] v = "raw-bad-escape-suffix" -> p \o <<"%zz">>
+         [] v \in DOMAIN ParamVal  -> init \o <<ParamVal[v]>>
+         [] v \in DOMAIN ParamValQ -> init \o <<ParamValQ[v], "?", "a=b">>
 
 \* request-target forms (RFC 9112 3.2).  "HOST" is replaced by the listener address by the concretiser.
 PathForms == {"origin", "absolute", "absolute-alt", "connect-path"}
@@ -199,12 +239,20 @@ BeforeQuery(s) == IF \E i \in 1..Len(s) : s[i] = "?"
                   THEN SubSeq(s, 1, (CHOOSE i \in 1..Len(s) : s[i] = "?" /\ \A j \in 1..(i - 1) : s[j] # "?") - 1)
                   ELSE s
 Schemes == {"http:", "HTTPS:"}
-RouteView(m, t) ==
+RawPathPart(m, t) ==
     IF t = <<"*">> THEN <<"*">>
     ELSE IF m = "CONNECT" /\ t[1] # "/" THEN <<>>
     ELSE IF t[1] = "/" THEN BeforeQuery(t)
     ELSE IF Len(t) >= 3 /\ t[1] \in Schemes /\ t[2] = "//" THEN BeforeQuery(SubSeq(t, 4, Len(t)))
     ELSE <<"!">>
+Refused(m, t) == RawPathPart(m, t) = <<"!">> \/ \E i \in 1..Len(RawPathPart(m, t)) : RawPathPart(m, t)[i] \in BadEscape
+\* URL.Path: one percent-decoding of the raw path
+ParsedPath(m, t) == DecodeSeq(RawPathPart(m, t))
+\* what echo dispatches on: URL.RawPath if the raw text is not the canonical escaping of URL.Path, else URL.Path
+RouteView(m, t) ==
+    IF Refused(m, t) THEN <<"!">>
+    ELSE IF \E i \in 1..Len(RawPathPart(m, t)) : NonCanon(RawPathPart(m, t)[i]) THEN RawPathPart(m, t)
+    ELSE ParsedPath(m, t)
 
 \* echo router: static routes match atom by atom (case sensitive, no cleaning); a trailing :param takes the rest up to
 \* "/" (observed: one trailing "/" after the parameter still matches)
@@ -220,7 +268,7 @@ Match(r, path) ==
 Router(routes, path) == IF \E r \in routes : Match(r, path) THEN CHOOSE r \in routes : Match(r, path) ELSE None
 
 \* engine.go: skipper = !matchesPath(X, "/internal")
-GuardView(m, t) == IF GuardOnParsedPath THEN DecodeSeq(RouteView(m, t)) ELSE t
+GuardView(m, t) == IF GuardOnParsedPath THEN ParsedPath(m, t) ELSE t
 IsPrefix(p, s) == Len(p) <= Len(s) /\ SubSeq(s, 1, Len(p)) = p
 MatchesPath(s, prefix) ==
     LET s2 == IF s # <<>> /\ s[Len(s)] = "/" THEN s ELSE s \o <<"/">>
